@@ -311,8 +311,8 @@ func bumpVersion(v string, k int) string {
 }
 
 // chainReplaces: replace directives whose replacement is itself required and / or replaced: chains and swaps.
-// Returns the directives and whether a version-less directive follows the directive that produces its left side
-// (the extractor's transitive treatment: outside the proved domain).
+// Returns the directives and a tag naming the shape; all shapes are inside wf_gomod (Go's non-transitive semantics),
+// the version-less ones are the shapes of the fixed finding gomod-versionless-replace-transitive.
 func chainReplaces(r *rand.Rand, reqs []Pkg) ([]gomodReplace, string) {
 	if len(reqs) < 2 {
 		return nil, ""
